@@ -19,7 +19,7 @@ impl IndexBuilder for SqliteQueryBuilder {
                 sql,
                 "{}{}{}",
                 self.quote().left(),
-                name,
+                Alias::new(name).quoted(self.quote()),
                 self.quote().right()
             )
             .unwrap();
@@ -54,7 +54,7 @@ impl IndexBuilder for SqliteQueryBuilder {
                 sql,
                 "{}{}{}",
                 self.quote().left(),
-                name,
+                Alias::new(name).quoted(self.quote()),
                 self.quote().right()
             )
             .unwrap();
